@@ -7,6 +7,8 @@ CONSTANTS Family
 
 B1 == {<<>>, <<"x">>, <<"]">>, <<"]", "]", ">">>, <<"]", "]", ">", "]", "]">>, <<">", "]">>}
 B2 == {<<"x">>, <<"]", "]", ">">>, <<">", "]">>}
+(* "X" is one symbol of 70 000 bytes: a message far larger than any read buffer, TLS record or SSH packet *)
+BBig == {<<"X">>, <<"X", "]", "]", ">", "X">>, <<"]", "X", "]">>}
 SubsetsUpTo(S, n) == {c \in SUBSET S : Cardinality(c) <= n}
 Len1(b) == Len(Msg2(b))
 RECURSIVE SetToSeq(_)
@@ -18,7 +20,7 @@ Case(bodies, cuts, close, closeAt, hcuts, hclose, hcloseAt) ==
 HelloLen == Len(Msg2(<<>>))
 
 (* one message, every set of <= 2 cuts, no close *)
-F1 == UNION {{Case(<<b>>, c, "none", -1, {}, "none", -1) : c \in SubsetsUpTo(1..(Len1(b) - 1), 2)} : b \in B1}
+F1 == UNION {{Case(<<b>>, c, "none", -1, {}, "none", -1) : c \in SubsetsUpTo(1..(Len1(b) - 1), 2)} : b \in B1 \cup BBig}
 (* two messages, <= 2 cuts anywhere (includes both in one chunk, cut on the boundary, in either delimiter) *)
 F2 == UNION {{Case(<<ab[1], ab[2]>>, c, "none", -1, {}, "none", -1) :
                 c \in SubsetsUpTo(1..(Len1(ab[1]) + Len1(ab[2]) - 1), 2)} : ab \in B2 \X B2}
@@ -27,7 +29,7 @@ F3 == {Case(<<<<"x">>>>, {}, "none", -1, {h}, "none", -1) : h \in 1..(HelloLen -
 (* peer closes during the replies: every position (0 = right after the requests), <= 1 cut *)
 F4 == UNION {{Case(<<<<"x">>, b>>, c, k, at, {}, "none", -1) :
                 k \in {"clean", "abort", "eof"}, at \in 0..(Len1(<<"x">>) + Len1(b)),
-                c \in SubsetsUpTo(1..(Len1(<<"x">>) + Len1(b) - 1), 1)} : b \in {<<"x">>, <<"]", "]", ">">>}}
+                c \in SubsetsUpTo(1..(Len1(<<"x">>) + Len1(b) - 1), 1)} : b \in {<<"x">>, <<"]", "]", ">">>, <<"X", "]">>}}
 (* peer closes before / inside the hello *)
 F5 == {Case(<<<<"x">>>>, {}, "none", -1, hc, k, at) :
          k \in {"clean", "abort", "eof"}, at \in 0..(HelloLen - 1), hc \in SubsetsUpTo(1..(HelloLen - 1), 1)}
